@@ -296,23 +296,32 @@ def search(prop, failure, seed, tier):
     if fr is None:
         return {'input': None, 'note': 'function record not found'}
     F = spec_dict()
+    import replan
+    angle = (u.subst.get('A') or 'Rad<Sc>').replace('Sc', 'f64')
     try:
-        pl = plan(fr, F)
-    except NoReplay as e:
+        pl = replan.plan(fr, F, angle)
+    except replan.NoReplay as e:
         return {'input': None, 'note': 'no replay generator for this obligation: %s' % e, 'tags': fr.get('tags', [])}
+    except Exception as e:
+        return {'input': None, 'note': 'replay planner failed: %r' % (e,), 'tags': fr.get('tags', [])}
     npts = 2000 if tier == 'thorough' else 400
-    rc, so, se = build_and_run(program(pl, seed, npts))
+    rc, so, se = build_and_run(replan.program(pl, seed, npts))
     if rc != 0:
         return {'input': None, 'note': 'replay program failed to build/run: ' + (se or so)[-600:], 'tags': fr.get('tags', [])}
+    names = pl['nvals'] + [iv for iv, _ in pl['ivals']]
     m = re.search(r'MISMATCH component=(\S*) got=(\S+) want=(\S+) inputs=\[(.*)\]', so)
     if m:
         vals = [float(x) for x in m.group(4).split(',') if x.strip()]
-        return {'input': dict(zip(pl['nvals'], vals)), 'values': vals, 'component': m.group(1), 'got': m.group(2), 'want': m.group(3),
-                'call': '%s(%s)' % (pl['callee'], ', '.join(pl['argv'])), 'spec_function': pl['spec'],
-                'how': 'real cgmath (path dependency on /repo) evaluated at f64 on integer-valued inputs against the spec function; re-run with ./check %s --replay <this file>' % prop,
+        return {'input': dict(zip(names, vals)), 'values': vals, 'component': m.group(1), 'got': m.group(2), 'want': m.group(3),
+                'call': '%s(%s)' % (pl['callee'], ', '.join(pl['argv'])), 'clauses': [t for t, _ in pl['clauses']],
+                'how': 'real cgmath (path dependency on /repo) evaluated at f64 on integer-valued inputs against the contract\'s ensures clauses; re-run with ./check %s --replay <this file>' % prop,
                 'tags': fr.get('tags', [])}
-    return {'input': None, 'agree_points': npts, 'exact': pl['exact'], 'tags': fr.get('tags', []),
-            'note': 'the real function agrees with the spec function on %d pseudo-random points' % npts}
+    ma = re.search(r'AGREE points=(\d+)', so)
+    used = int(ma.group(1)) if ma else 0
+    return {'input': None, 'agree_points': used, 'tags': fr.get('tags', []), 'clauses_checked': [t for t, _ in pl['clauses']],
+            'clauses_skipped': pl['skipped'], 'branch_free': bool(fr.get('branch_free')),
+            'unguarded': all(ch.guard is None for _, ch in pl['clauses']),
+            'note': 'the real function satisfies the replayable ensures clauses on %d pseudo-random points (of %d drawn)' % (used, npts)}
 
 
 def replay_file(prop, path):
@@ -327,7 +336,8 @@ def replay_file(prop, path):
         return 0
     fr, u = find_fn(prop, d.get('obligation'), 'quick')
     F = spec_dict()
-    pl = plan(fr, F)
-    rc, so, se = build_and_run(program(pl, 1, 1, fixed=rp['values']))
+    import replan
+    pl = replan.plan(fr, F, (u.subst.get('A') or 'Rad<Sc>').replace('Sc', 'f64'))
+    rc, so, se = build_and_run(replan.program(pl, 1, 1, fixed=rp['values']))
     print(so.strip() or se[-500:])
     return 1 if 'MISMATCH' in so else 0
